@@ -51,9 +51,9 @@ static void check_intervals(const char *what)
 {
 	int i, j, t, u;
 
-	for (t = 0; t < VRT_MAX_THREADS; t++)
+	for (t = 0; t < 8; t++)
 		for (i = 0; i < (int)vrt_note_get(N_NGP(t)); i++)
-			for (u = 0; u < VRT_MAX_THREADS; u++)
+			for (u = 0; u < 8; u++)
 				for (j = 0; j < (int)vrt_note_get(N_NSEC(u)); j++) {
 					unsigned long sb = vrt_note_get(N_SECB(u, j)), se = vrt_note_get(N_SECE(u, j));
 					unsigned long gc = vrt_note_get(N_GPC(t, i)), gr = vrt_note_get(N_GPR(t, i));
